@@ -23,6 +23,17 @@ class _Rewrite(ast.NodeTransformer):
             return ast.copy_location(ast.Subscript(ast.Name('__old', ast.Load()), ast.Constant(n.id), ast.Load()), n)
         return n
 
+    def visit_Compare(self, n):
+        # equality with a complex product / negation: floating-point complex arithmetic (numpy array loops, numba scalars and Python
+        # scalars round differently in the last place) is compared with a relative tolerance of 1e-9; exactness of the coefficient
+        # arithmetic is not part of any contract
+        n = self.generic_visit(n)
+        if len(n.ops) == 1 and isinstance(n.ops[0], ast.Eq):
+            sides = [n.left, n.comparators[0]]
+            if any(isinstance(x, ast.Call) and isinstance(x.func, ast.Name) and x.func.id in ('cmul', 'cneg') for x in sides):
+                return ast.copy_location(ast.Call(ast.Name('_ceq', ast.Load()), sides, []), n)
+        return n
+
     def visit_Call(self, n):
         if isinstance(n.func, ast.Name):
             f = n.func.id
@@ -103,7 +114,7 @@ def _same_loc(a, b):
 
 
 _HELPERS = {'same_loc': _same_loc, 'fresh_loc': lambda x: True, 'rows': _rows, 'cols': _cols, 'implies': _implies, 'iff': _iff, 'same': _same, 'eq1': _same,
-            'b2i': lambda x: int(bool(x)), 'cmul': lambda a, b: a * b, 'cplx_one': lambda: 1.0 + 0j, 'len': len, 'min': min, 'max': max, 'abs': abs,
+            'b2i': lambda x: int(bool(x)), 'cmul': lambda a, b: a * b, 'cneg': lambda a: -a, '_ceq': lambda a, b: abs(complex(a) - complex(b)) <= 1e-9 * (1.0 + abs(complex(b))), 'cplx_one': lambda: 1.0 + 0j, 'len': len, 'min': min, 'max': max, 'abs': abs,
             'all': all, 'any': any, 'range': range, 'int': int, 'bool': bool, 'xor1': _xor1}
 
 
